@@ -119,6 +119,13 @@ def getColumnStyle (cols : List (Col W)) (c : Int) : Except ColErr (Option Int) 
   | some d => .ok d.style
   | none => .ok none
 
+/-- models model.rs::get_column_style at the level of style indices: unlike the worksheet getter it
+    does not validate the column number (an invalid column simply has no descriptor) -/
+def modelGetColumnStyle (cols : List (Col W)) (c : Int) : Option Int :=
+  match findCol cols c with
+  | some d => d.style
+  | none => none
+
 /-- the body of worksheet.rs::set_column_width_and_style after the two validity checks.
     `nw`/`ncw` are the stored width and the custom-width flag of the new descriptor. -/
 def setCore (q : Quirks) (column : Int) (nw : W) (ncw : Bool) (hidden : Bool) (style : Option Int) :
